@@ -4,6 +4,8 @@
 //	              TypeIdentifier on directed + exhaustive-small + seeded random names; one TSV line per case
 //	-mode schemas writes <n> seeded random gqlgen projects (schema files + gqlgen.yml) under -out
 //	-mode gen     runs the REAL api.Generate (+ plugin/stubgen) in -dir (own process: chdir + global registry)
+//	              + the "bindings" projects (bindings.go): scalars / enums bound to hand-written Go types
+//	-mode typerefs real config.TypeReference predicates / Elem() chains on GraphQL type x bound Go type
 //	-mode decls   go/parser over the files generated in -dir: declared identifiers by scope, and the schema
 //	              summary line for the Lean model's `emitted`
 //
@@ -28,12 +30,14 @@ func hx(s string) string {
 }
 
 func main() {
-	mode := flag.String("mode", "names", "names | schemas | gen | decls")
+	mode := flag.String("mode", "names", "names | schemas | gen | typerefs | decls")
 	tier := flag.String("tier", "quick", "quick | thorough")
 	seed := flag.Uint64("seed", 1, "seed")
 	dir := flag.String("dir", "", "project directory (gen, decls)")
 	outDir := flag.String("out", "", "output directory (schemas)")
 	n := flag.Int("n", 8, "number of random projects (schemas)")
+	corpus := flag.String("corpus", "", "directed bindings corpus (schemas, with -bindings)")
+	withBindings := flag.Bool("bindings", false, "schemas: also write the bindings projects (c17b*)")
 	flag.Parse()
 	defer out.Flush()
 	switch *mode {
@@ -41,6 +45,11 @@ func main() {
 		runNames(*tier, *seed)
 	case "schemas":
 		runSchemas(*outDir, *n, *seed, *tier)
+		if *withBindings {
+			writeBindings(*outDir, *seed, *tier, *corpus)
+		}
+	case "typerefs":
+		runTypeRefs(*tier, *seed)
 	case "gen":
 		code := runGen(*dir)
 		out.Flush()
